@@ -49,7 +49,7 @@ var osFuncs = map[string]bool{
 	"Link": true, "Chmod": true, "Chtimes": true, "Readlink": true, "Truncate": true,
 }
 
-var syncTypes = map[string]bool{"Mutex": true, "RWMutex": true, "Once": true, "Cond": true, "NewCond": true, "Locker": true}
+var syncTypes = map[string]bool{"Pool": true, "Mutex": true, "RWMutex": true, "Once": true, "Cond": true, "NewCond": true, "Locker": true}
 
 type stats struct {
 	mutex, gostmt, wrap, resume, maprange, bolt, osrw, seam, skipped int
